@@ -11,7 +11,8 @@
 //!                                      | y: <ty> = x inside a def | x: <ty> = <val> at module level | TypeCompiled::new(T).matches(v)
 //! frozen (A frozen, loaded into B; values = A's frozen values):
 //!                                      A's four defs | B's defs annotated with the loaded T (isinstance, param, return, assignment)
-//!                                      | x: T = VALS[i] at B's module level | host API on the frozen T
+//!                                      | x: T = VALS[i] at B's module level | A's p_param(VALS[i]) called from B's module level and from a def of B
+//!                                      | host API on the frozen T
 //! mixed  (frozen type, values built freshly in B): the same nine without the module-level assignment.
 
 use std::collections::HashMap;
@@ -214,6 +215,18 @@ fn phase_b(g: &Globals, a: &FrozenModule, vals: &[String], rows: &mut [String]) 
                     row.push(module_assign(
                         g,
                         &format!("load(\"a.star\", \"T\", \"VALS\")\nx: T = VALS[{}]\n", i),
+                        Some(a),
+                    ));
+                    // A's frozen def with an annotated parameter called from Starlark code of B with a
+                    // compile-time constant argument (the shape the call inliner looks at)
+                    row.push(module_assign(
+                        g,
+                        &format!("load(\"a.star\", \"p_param\", \"VALS\")\np_param(VALS[{}])\n", i),
+                        Some(a),
+                    ));
+                    row.push(module_assign(
+                        g,
+                        &format!("load(\"a.star\", \"p_param\", \"VALS\")\ndef caller():\n    return p_param(VALS[{}])\ncaller()\n", i),
                         Some(a),
                     ));
                 }
